@@ -332,3 +332,22 @@ Proof.
 Qed.
 
 End Combs.
+
+(* ------------------------------------------------------------------ small list facts *)
+Lemma NoDup_app_intro {A} (a b : list A) :
+  NoDup a -> NoDup b -> (forall x, In x a -> ~ In x b) -> NoDup (a ++ b).
+Proof.
+  induction a as [|x a IH]; intros Ha Hb Hd; cbn; [exact Hb|].
+  inversion Ha; subst. constructor.
+  - rewrite in_app_iff. intros [H|H]; [contradiction|]. apply (Hd x); [left; reflexivity | exact H].
+  - apply IH; [assumption | exact Hb | intros y Hy; apply Hd; right; exact Hy].
+Qed.
+
+Lemma subl_length {A} (s l : list A) : subl s l -> length s <= length l.
+Proof. induction 1; cbn; lia. Qed.
+
+Lemma combs_too_many {A} : forall (l : list A) k, length l < k -> combs k l = [].
+Proof.
+  induction l as [|x t IH]; intros k Hk; destruct k; cbn in *; try lia; [reflexivity|].
+  rewrite (IH k), (IH (S k)) by lia. reflexivity.
+Qed.
